@@ -3,11 +3,13 @@ import refs_cases
 
 ID = "C08"
 PROPERTIES_FILE = "Properties/C08.v"
-COQ_TARGETS = ["Properties/C08.vo", "Refs/Cases.vo", "Refs/RefStep.vo", "Refs/FenceProofs.vo", "Refs/TreeStep.vo"]
+COQ_TARGETS = ["Properties/C08.vo", "Refs/Cases.vo", "Refs/RefStep.vo", "Refs/FenceProofs.vo", "Refs/TreeStep.vo", "Refs/BindSplit.vo", "Refs/GenTie.vo"]
 LEVEL = "proof"
 TECHNIQUE = ("Coq theorems (induction over all request histories) over a hand-written sequential Gallina model of the path tree "
              "(childNodes/childRefs/childRefNames/deleted, renameChildTo, notifyNameChange, markChildDeleted) composed with a path-addressed "
-             "backend model (PathFS); model and backend twin tied to the code by a differential against the real Server.Handle")
+             "backend model (PathFS); model and backend twin tied to the code by a differential against the real Server.Handle plus gated "
+             "two-connection scenarios; static tie: go2coq/RefsGen event skeletons of notifyNameChange, renameChildTo, markChildDeleted, "
+             "notifyDelete, doWalk, DecRef, stop, Lookup/Insert/DeleteFID = a table reviewed against the model")
 LEVEL_TEXT = ("Proved in Coq. (1) History theorem, every backend: C08_tree_inv (childRefs/childRefNames agree, registered refs are live and sit "
               "under their parent's node, live non-deleted refs are registered, childNodes injective, ids in range). (2) History theorems for the "
               "PathFS backend (pathB, Refs/Coherent*.v, Refs/Notified*.v; they use (1)): C08_coherent - after every history, all request kinds, "
@@ -18,21 +20,29 @@ LEVEL_TEXT = ("Proved in Coq. (1) History theorem, every backend: C08_tree_inv (
               "xattr fid cannot be cloned; an unlinked name has no path node and a later binding gets a fresh non-deleted node; one callback of "
               "renameChildTo tells the new parent File and name. C08_fenced_subtree (markChildDeleted marks EVERY path node at or below the victim) "
               "is an induction over the node graph of an arbitrary state. NOT proved: tree_closed for arbitrary backends (deleted downward "
-              "closed; needs B2). Every run replays generated create/mkdir/walk/clone/rename/renameat/unlinkat/remove/clunk histories (depth <= 4, "
+              "closed; needs B2). (4) The atomicity of a binding request with respect to renames (renameMu) is an ASSUMPTION of the sequential "
+              "model: C08_clone_split (the clone as two segments run back to back = the model's request, every backend and state) and "
+              "C08_clone_overtaken_refuted (PathFS: a rename between the segments leaves the new fid on the old path, ENOENT) make it explicit; "
+              "C08_clone_is_one_critical_section reads off the generated skeleton that the code runs both segments inside one safelyRead. "
+              "Every run replays generated create/mkdir/walk/clone/rename/renameat/unlinkat/remove/clunk histories (depth <= 4, "
               "many fids on equal and nested paths, renames over existing targets, subtree moves, refused renames, re-created names) on the real "
               "server against the Go twin of PathFS and evaluates the stated clauses on the observed behaviour, independently of the model.")
 LEVEL_NOTE = ("Sequential model; for (2) the backend is PathFS (assumption B3) and the server its only writer (B4). TESTED on the real code on "
               "every run (Cases.property_holds on the observation only): GetAttr through every bound fid after each tree change returns the inode "
               "the fid was bound to (the harness's own bookkeeping, not the Coq model); a request through a fenced fid is answered EINVAL/ENOENT "
               "and reaches no backend call; within a request a File is told its new name after its parent File; the dumped childRefs and "
-              "childRefNames agree; no File used after Close; a gated unlink-vs-walk scenario. A history on which implementation and model "
+              "childRefNames agree; no File used after Close; gated scenarios: unlink vs a parked walk; a rename of the entry / of an ancestor "
+              "(same or other directory) issued while a clone, a walk to a child or a Tlcreate below it is parked inside its backend call - "
+              "afterwards GetAttr through the new fid, the origin and both directory fids must reach their objects. A history on which implementation and model "
               "disagree (replies, per-request call log, path-tree dump) is reported as a VIOLATION with that history as replay. The harness reads "
               "unexported fields (pathNode.childRefs/childRefNames/childNodes/deleted, fidRef.file, server.pathTree): renaming one breaks its "
-              "compilation and is reported as a violation. The model is tied to the Go code by the differential only.")
+              "compilation and is reported as a violation. STATIC TIE (C08_code_skeleton, C08_notify_parents_first_code, "
+              "C08_clone_is_one_critical_section): equality of the generated event skeletons with a table reviewed against Refs/Model.v (not a "
+              "semantics of Go; see C05). The rest of the model is tied to the Go code by the differential only.")
 DESIGN_REF = "6/C08"
 ASSUMPTIONS = [
     "B3: the backend is PathFS (path-addressed, Renamed rewrites the path from parent.path/name); B4: the server is the only writer of the tree",
-    "requests of all connections are processed one at a time (sequential model); Go map iteration order only permutes Renamed/Close runs",
+    "requests of all connections are processed one at a time (sequential model; for binding requests vs renames this is renameMu: C08_clone_split / C08_clone_overtaken_refuted, gated scenario rename-vs-bind); Go map iteration order only permutes Renamed/Close runs",
     "B2: a successful RenameAt never moves a directory into itself or a descendant (else parent chains become cyclic and Files leak); enforced by the harness backend, hypothesis (no_cycle flag / fuel) of the disconnect theorem",
     "names are compared by equality only (name ids in the model; checkSafeName is C09)",
 ]
@@ -41,6 +51,7 @@ TRUSTED_BASE = [
     "axioms: none (Print Assumptions: closed under the global context for every property theorem)",
     "hand-written model Refs/Model.v + Refs/PathFS.v, tied by harness/p9/c05_test.go, vhfs_*_test.go + Refs/Cases.v",
     "the harness backend vhfs (Go twin of PathFS.v), its call log and failure injection; lib/refs_cases.py (observations -> Coq terms)",
+    "tools/go2coq/refsgen.go (syntactic event-skeleton extraction, no type checker) and the hand review of Refs/GenTie.v's table against Refs/Model.v",
 ]
 HARNESS = ["vh_common_test.go", "vhfs_backend_test.go", "vhfs_driver_test.go", "vhfs_gen_test.go", "vhfs_gated_test.go", "c08_test.go"]
 TEST = "^TestVerifC08$"
@@ -103,7 +114,7 @@ def run(ctx):
 
 
 RULE = ("fixed corpus (ancestor renames, Trename, subtree unlink + fenced requests + re-creation, rename over existing directory/file, refused "
-        "renames, two connections) and random histories over 2-3 names x depth <= 4 with 2 connections x 8 fids, both walk flavours, GetAttr "
+        "renames, two connections), gated scenarios (unlink vs parked walk; rename of the entry / an ancestor vs a parked clone / walk / Tlcreate, 16 combinations per tier-quick run, 32 thorough) and random histories over 2-3 names x depth <= 4 with 2 connections x 8 fids, both walk flavours, GetAttr "
         "probe through every bound fid after each tree change, occasional injected backend failure; distinct_nontrivial = distinct (steps, injection) records with >= 3 requests of which at least one rename/unlink succeeded, plus the gated scenarios; samples = the injected-failure history with the most backend calls, the complete history with the most successful rename/unlink requests, one gated scenario")
 
 
